@@ -325,7 +325,10 @@ func ExploreFn(sc *Scenario) func(uint64) *target.ScrapeStatus {
 	for i := range sc.Targets {
 		m[sc.Targets[i].Hash] = &sc.Targets[i]
 	}
-	return func(h uint64) *target.ScrapeStatus {
+	// like the real explorer, hand out the SAME status object for a target on every call
+	cache := map[uint64]*target.ScrapeStatus{}
+	var mu sync.Mutex
+	build := func(h uint64) *target.ScrapeStatus {
 		t := m[h]
 		if t == nil || t.Explore == "none" {
 			return nil
@@ -341,6 +344,16 @@ func ExploreFn(sc *Scenario) func(uint64) *target.ScrapeStatus {
 		}
 		s := target.NewScrapeStatus(t.Series, t.Total)
 		s.Health = pscrape.HealthGood
+		return s
+	}
+	return func(h uint64) *target.ScrapeStatus {
+		mu.Lock()
+		defer mu.Unlock()
+		if s, ok := cache[h]; ok {
+			return s
+		}
+		s := build(h)
+		cache[h] = s
 		return s
 	}
 }
